@@ -11,6 +11,8 @@ Case (JSON-able):
             dyn_ev [j, name] | dyn_add [j, ctxs] | dyn_remove [j]; a dyn_ev issued while the model is not
             registered carries 'unjudged': it is executed silently (outside the statement: no events, no
             voluntary yields) - what follows a re-registration is judged
+  restored  None | 'pickle' | 'deepcopy': the machine (with its models) goes through pickle.loads(pickle.dumps()) /
+            copy.deepcopy() BEFORE the threads start; they run on the restored copy
   ignore    ignore_invalid_triggers; queued
   threads   list (per thread) of calls; call = {'tag', 'kind', 'args', 'script'}
             kind: ev (getattr(model, name)(tag)) | trig (model.trigger(name, tag)) | dispatch (machine.dispatch(name, tag):
@@ -30,12 +32,16 @@ import threading
 from . import common, threads
 from .threads import SLock, UCtx
 
-from transitions.extensions import LockedMachine, LockedHierarchicalMachine, LockedHierarchicalGraphMachine
+from transitions.extensions import LockedMachine, MachineFactory
 from transitions.extensions import locking as _locking
 
 
 class UserErr(Exception):
     pass
+
+
+class NotLocked(Exception):
+    """MachineFactory.get_predefined(locked=True, ...) returned a class without locking"""
 
 
 class UserBase(BaseException):
@@ -155,7 +161,10 @@ class Run(object):
     # ---- construction (main thread, no controller) -------------------------------------------
     def build(self):
         case = self.case
-        cls = {'flat': LockedMachine, 'hsm': LockedHierarchicalMachine, 'hsmg': LockedHierarchicalGraphMachine}[case['cls']]
+        # the classes are drawn through the factory, as a user would
+        cls = MachineFactory.get_predefined(locked=True, nested=is_hsm(case), graph=case['cls'] == 'hsmg')
+        if not issubclass(cls, LockedMachine):
+            raise NotLocked(cls.__name__)
         kw = {}
         if case['cls'] == 'hsmg':
             kw['graph_engine'] = 'mermaid'
@@ -186,12 +195,9 @@ class Run(object):
                 self.machine.add_model(mod, model_context=[self.ctx(c) for c in ex])
             else:
                 self.machine.add_model(mod)
-        if not case['base']:
-            # the library's default PicklableLock wraps our SLock(0) (module global `Lock` replaced)
-            pl = self.machine.machine_context[0]
-            lk = getattr(pl, 'lock', None)
-            if isinstance(lk, SLock):
-                self.ctxs[('lock', 0)] = lk
+        if case.get('restored'):
+            self.restore(case['restored'])
+        self.default_lock = None if case['base'] else self.machine.machine_context[0]
 
         def reg(call):
             self.scripts[call['tag']] = call.get('script') or {}
@@ -204,6 +210,37 @@ class Run(object):
 
     def rec(self, name):
         return Rec(name)
+
+    def restore(self, how):
+        """the threads run on a machine that went through pickle / deepcopy before they start"""
+        if how == 'pickle':
+            m2 = pickle.loads(pickle.dumps(self.machine))
+        else:
+            m2 = copy.deepcopy(self.machine)
+        n, ns = len(self.models), len(self.spares)
+        mods = list(m2.models)
+        self.machine = m2
+        self.models, self.spares, self.dyn = mods[:n], mods[n:n + ns], mods[n + ns:]
+        # the restored context objects are the live ones from now on (shared objects stay shared: one memo)
+        self.ctxs = {}
+        seen = list(m2.machine_context)
+        for l in m2.model_context_map.values():
+            seen += list(l)
+        for c in seen:
+            if isinstance(c, SLock):
+                self.ctxs.setdefault(('lock', c.cid), c)
+            elif isinstance(c, UCtx):
+                self.ctxs.setdefault(('user', c.cid), c)
+
+    def slocks(self):
+        """every scheduler-aware lock of the live machine, WITHOUT touching attributes of the library's wrapper
+        (a lazily allocating `lock` property must not be triggered by the harness)"""
+        out = {k: c for k, c in self.ctxs.items() if isinstance(c, SLock)}
+        if self.default_lock is not None:
+            for v in vars(self.default_lock).values():
+                if isinstance(v, SLock):
+                    out[('lock', 0)] = v
+        return out
 
     def snapshot(self, how):
         """a callback persists the machine in the middle of an event (the documented way: pickle / deepcopy)"""
@@ -356,7 +393,7 @@ class Run(object):
                       'events': ev, 'nmodels': len(m.models),
                       'triggers': sorted(k for k in ev)}
         # probe from another thread (this one): everything released
-        held = sorted('%s%d' % k for k, c in self.ctxs.items() if isinstance(c, SLock) and c.owner is not None)
+        held = sorted('%s%d' % k for k, c in self.slocks().items() if c.owner is not None)
         cur = m._ident.__dict__.get('current', 0)
         self.released = {'locks_held': held, 'current': 0 if cur == 0 else 1}
 
